@@ -341,6 +341,16 @@ impl World {
         if want != got {
             self.rust_violations.push(format!("tracker live_read_transactions {got:?} != pins+pending {want:?}"));
         }
+        // O4 (direct): every unpersisted page is allocated; post-commit allocations are unpersisted
+        {
+            let alloc: BTreeSet<(u32, u32)> = db.mem.allocated_order0().into_iter().collect();
+            for p in &db.mem.unpersisted.pages {
+                if p.order0_range().any(|i| !alloc.contains(&(p.region, i))) {
+                    self.rust_violations.push(format!("unpersisted page {p:?} is free in the allocator"));
+                    break;
+                }
+            }
+        }
         // savepoint validity as the tracker sees it
         let valid: BTreeSet<u64> = db.tracker.valid_savepoints.iter().map(|(id, _)| *id).collect();
         for p in &self.pins {
